@@ -23,6 +23,10 @@ Judge(j) ==
          /\ ~e.wsame => Report(j, <<"Write entry point differs from the string">>)
          /\ (e.res = "ok" /\ PiWithGt(N, e.root)) => Report(j, <<"a processing instruction containing > was emitted">>)
          /\ (e.res = "ok" /\ HtmlBad(N, e.lc, e.root, e.toks) # {}) => Report(j, <<"rules", HtmlBad(N, e.lc, e.root, e.toks)>>)
+         /\ (e.res = "ok" /\ CdataUnrequested(N, e.lc, e.root, e.toks, XhtmlNs, {<<e.cdata[q][1], e.cdata[q][2]>> : q \in 1..Len(e.cdata)}) # {}
+                          /\ CdataUnrequested(N, e.lc, e.root, e.toks, "https://www.w3.org/1999/xhtml", {<<e.cdata[q][1], e.cdata[q][2]>> : q \in 1..Len(e.cdata)}) # {})
+               => Report(j, <<"a CDATA section in an element that was not asked to get one",
+                              CdataUnrequested(N, e.lc, e.root, e.toks, XhtmlNs, {<<e.cdata[q][1], e.cdata[q][2]>> : q \in 1..Len(e.cdata)})>>)
 Init == i = 0
 Next == i < Len(Rec) /\ i' = i + 1
 Spec == Init /\ [][Next]_i
